@@ -28,10 +28,11 @@ VARIANTS = {
     "panellim": {"ColourExact"},
     "inplace": {"DatasetUnchanged"},
     "dropempty": {"OneSeriesEach"},
+    "auxmask": {"PointsExact"},
 }
 
 TLA_FIELDS = ["id", "kind", "NX", "NZ", "NR", "NC", "xvar", "even", "ZPos", "colour", "CTab", "lims",
-              "legend", "colorbar", "vals", "maxbad", "whole"]
+              "legend", "colorbar", "vals", "maxbad", "whole", "aux", "avals"]
 
 VAR_NAMES = ["yb", "ya", "yd", "yc", "yf", "ye", "yh", "yg", "yj", "yi", "yl", "yk"]
 LETTERS = "abcdefghijklmnopqrstuvwxyz"
@@ -41,7 +42,8 @@ LETTERS = "abcdefghijklmnopqrstuvwxyz"
 # configurations
 
 def make_cfg(kind, NX, NZ, NR=0, NC=0, series=None, xvar=False, ztype="int", ZPos=None, colour="none",
-             lims=(), legend="auto", colorbar="auto", vals="fni", maxbad=99, whole=False, **h):
+             lims=(), legend="auto", colorbar="auto", vals="fni", maxbad=99, whole=False, aux=False, avals="fn",
+             **h):
     if series is None:
         series = "mesh" if kind == "heat" else ("z" if NZ > 1 else "single")
     R, C = max(NR, 1), max(NC, 1)
@@ -56,18 +58,19 @@ def make_cfg(kind, NX, NZ, NR=0, NC=0, series=None, xvar=False, ztype="int", ZPo
     return dict(kind=kind, NX=NX, NZ=NZ, NR=NR, NC=NC, xvar=bool(xvar),
                 even=bool(ztype == "str" or series == "vars"), ZPos=ZPos, colour=colour, CTab=ctab,
                 lims=list(lims), legend=legend, colorbar=colorbar, vals=vals, maxbad=maxbad, whole=bool(whole),
-                series=series, ztype=ztype, h=dict(h))
+                aux=bool(aux), avals=avals, series=series, ztype=ztype, h=dict(h))
 
 
 def to_tla(cfg):
     d = {k: cfg[k] for k in TLA_FIELDS}
     d["vals"] = set(cfg["vals"])
+    d["avals"] = set(cfg["avals"])
     return tlc.tla(d)
 
 
 def n_masks(cfg):
     """rough number of datasets TLC will emit for a configuration (for load balancing only)"""
-    n = max(cfg["NR"], 1) * max(cfg["NC"], 1) * cfg["NZ"] * cfg["NX"] * (2 if cfg["xvar"] else 1)
+    n = max(cfg["NR"], 1) * max(cfg["NC"], 1) * cfg["NZ"] * cfg["NX"] * (1 + int(cfg["xvar"]) + int(cfg["aux"]))
     v = len(cfg["vals"]) - 1
     return sum(math.comb(n, j) * v ** j for j in range(0, min(n, cfg["maxbad"]) + 1))
 
@@ -76,7 +79,9 @@ def gen_configs(tier):
     T = tier == "thorough"
     out = []
 
-    cnt = [0, 0]
+    cnt = [0, 0, 0, 0, 0]
+    ZDT = [None, "uint8", "uint16", "uint32", "uint64", "int32"]
+    CDT = ["uint8", None, "uint16", "float32", "uint32", "int32", "uint64"]
 
     def add(*a, **k):
         c = make_cfg(*a, **k)
@@ -91,6 +96,20 @@ def gen_configs(tier):
             elif not h.get("dimorder"):
                 cnt[1] += 1
                 h["mix"] = (0, 2)[cnt[1] % 2]
+        # data refinement: dtype of the z coordinate and of the colour variable
+        if h.get("api") != "auto" and c["series"] == "z" and "zdtype" not in h:
+            if c["ztype"] == "int":
+                cnt[2] += 1
+                h["zdtype"] = ZDT[cnt[2] % len(ZDT)]
+            elif c["ztype"] == "float":
+                cnt[3] += 1
+                h["zdtype"] = (None, "float32")[cnt[3] % 2]
+        if c["colour"] == "c" and not c["aux"] and "cdtype" not in h:
+            cnt[4] += 1
+            dt = CDT[cnt[4] % len(CDT)]
+            if dt == "uint8" and h.get("normlog"):
+                dt = "uint16"
+            h["cdtype"] = dt
         out.append(c)
 
     full = 99
@@ -172,6 +191,18 @@ def gen_configs(tier):
             add(kind, 4, 1, xvar=True, split=(2, 2), maxbad=b1 if not T else 3, colour="c", mix=1, colormap="viridis")
         else:
             add(kind, 4, 1, xvar=True, split=(2, 2), maxbad=b1 if not T else 3, yerr=True, xerr=True, mix=1)
+        # --- auxiliary variables (error bars, per-point colour) with NaN / inf of their own: the points stay
+        if sc:
+            add(kind, 3, 1, maxbad=b2, colour="c", aux=True, avals="fn", colormap="viridis")
+            add(kind, 2, 2, maxbad=b1 if not T else 3, colour="c", aux=True, avals="fn", ZPos=[2, 1])
+            add(kind, 2, 2, maxbad=b1, yerr=True, aux=True, avals="fni")
+            add(kind, 2, 2, NC=2, maxbad=1, vals="fn", colour="c", aux=True, avals="fn")
+            add(kind, 4, 1, xvar=True, split=(2, 2), maxbad=1 if not T else 2, colour="c", aux=True, avals="fn", mix=1)
+        else:
+            add(kind, 3, 1, maxbad=b2 if not T else 4, yerr=True, aux=True, avals="fni")
+            add(kind, 2, 2, maxbad=b1 if not T else 3, yerr=True, xerr=True, aux=True, avals="fni", whole=True)
+            add(kind, 2, 2, NR=2, maxbad=1, vals="fn", yerr=True, aux=True, avals="fn")
+            add(kind, 2, 2, xvar=True, maxbad=b1 if not T else 2, xerr=True, aux=True, avals="fni", colour="z", ZPos=[1, 3])
         if not sc:
             # --- error bars
             add(kind, 3, 2, maxbad=b2, whole=True, yerr=True)
@@ -241,6 +272,7 @@ def variant_configs():
         "panellim": [make_cfg("line", 2, 2, NR=2, maxbad=0, colour="c"), make_cfg("heat", 2, 2, NR=2, maxbad=1)],
         "inplace": [make_cfg("line", 2, 2, maxbad=1)],
         "dropempty": [make_cfg("line", 2, 2, maxbad=1, whole=True)],
+        "auxmask": [make_cfg("line", 2, 1, maxbad=1, aux=True, yerr=True)],
     }
 
 
@@ -287,7 +319,14 @@ def cq(cfg, pos):
 def z_values(cfg):
     if cfg["ztype"] == "str":
         return ["z" + LETTERS[p] for p in cfg["ZPos"]]
-    return [zq(cfg, p) for p in cfg["ZPos"]]
+    vals = [zq(cfg, p) for p in cfg["ZPos"]]
+    dt = cfg["h"].get("zdtype")
+    if dt:
+        import numpy as np
+        arr = np.asarray(vals, dtype=dt)
+        assert [float(v) for v in arr] == [float(v) for v in vals], (dt, vals)     # same values, other dtype
+        return arr
+    return vals
 
 
 def grid_values(cfg):
@@ -343,7 +382,7 @@ def build(case):
     h = cfg["h"]
     kind = cfg["kind"]
     R, C, NZ, NX = shape(cfg)
-    ym, xm = case["ym"], case["xm"]
+    ym, xm, am = case["ym"], case["xm"], case.get("am") or []
     Y = np.empty((R, C, NZ, NX))
     XV = np.empty((R, C, NZ, NX))
     EY = np.empty((R, C, NZ, NX))
@@ -355,9 +394,10 @@ def build(case):
                     i = idx(cfg, r, c, z, k)
                     Y[r - 1, c - 1, z - 1, k - 1] = masked(yval(i), ym[i - 1], i)
                     XV[r - 1, c - 1, z - 1, k - 1] = masked(xvval(i), xm[i - 1], i) if cfg["xvar"] else 0.0
-                    EY[r - 1, c - 1, z - 1, k - 1] = errval(i)
+                    a = am[i - 1] if am else "f"
+                    EY[r - 1, c - 1, z - 1, k - 1] = errval(i) if a == "f" else (np.nan if a == "n" else np.inf)
                     if cfg["colour"] == "c" and kind == "scatter":
-                        CV[r - 1, c - 1, z - 1, k - 1] = cq(cfg, cfg["CTab"][i - 1])
+                        CV[r - 1, c - 1, z - 1, k - 1] = cq(cfg, cfg["CTab"][i - 1]) if a == "f" else np.nan
     b = Built()
     b.kwargs = {}
     rows, cols = grid_values(cfg)
@@ -391,6 +431,12 @@ def build(case):
         if split and dims and dims[-1] == "kk":
             dims = dims[:-1] + ["ka", "kb"]
             A = A.reshape(A.shape[:-1] + tuple(split))
+        if role == "c" and h.get("cdtype"):
+            B = A.astype(h["cdtype"])
+            assert np.array_equal(B.astype(float), A), (h["cdtype"], A)
+            A, role = B, "s"
+        elif role == "c":
+            role = "s"
         rev = bool(h.get("dimorder")) != ((mix == 1 and role == "s") or (mix == 2 and role == "y"))
         if rev and len(dims) > 1:
             perm = list(range(len(dims)))[::-1]
@@ -495,7 +541,7 @@ def build(case):
             dv["ex"] = var(gdims + ["zz", xdim], sel(EY) / 2, "s")
         if cfg["colour"] == "c":
             if kind == "scatter":
-                dv["cv"] = var(gdims + ["zz", xdim], sel(CV), "s")
+                dv["cv"] = var(gdims + ["zz", xdim], sel(CV), "c")
             else:
                 CL = np.empty((R, C, NZ))
                 for r in range(R):
@@ -503,7 +549,7 @@ def build(case):
                         for z in range(NZ):
                             CL[r, c, z] = cq(cfg, cfg["CTab"][(r * C + c) * NZ + z])
                 dv["cv"] = var(gdims + ["zz"], CL[tuple([slice(None) if cfg["NR"] else 0,
-                                                         slice(None) if cfg["NC"] else 0, slice(None)])], "s")
+                                                         slice(None) if cfg["NC"] else 0, slice(None)])], "c")
         yarg, zarg = "yy", "zz"
     elif cfg["series"] == "vars":
         for z in range(NZ):
@@ -519,14 +565,14 @@ def build(case):
             dv["ex"] = var(gdims + [xdim], sel(EY, 0) / 2, "s")
         if cfg["colour"] == "c":
             if kind == "scatter":
-                dv["cv"] = var(gdims + [xdim], sel(CV, 0), "s")
+                dv["cv"] = var(gdims + [xdim], sel(CV, 0), "c")
             else:
                 CL = np.empty((R, C))
                 for r in range(R):
                     for c in range(C):
                         CL[r, c] = cq(cfg, cfg["CTab"][(r * C + c) * NZ])
                 dv["cv"] = var(gdims, CL[tuple([slice(None) if cfg["NR"] else 0,
-                                                slice(None) if cfg["NC"] else 0])], "s")
+                                                slice(None) if cfg["NC"] else 0])], "c")
         yarg, zarg = "yy", None
     if cfg["colour"] == "c":
         b.kwargs["c"] = "cv"
@@ -549,7 +595,9 @@ def describe(case, b=None):
     return "%s(%s%s%s) [cfg %s: NX=%d NZ=%d NR=%d NC=%d series=%s ztype=%s; y mask %s%s]" % (
         b.fn, "ds, " if b.ds is not None else "", args, (", " + kw) if kw else "", cfg.get("id"),
         cfg["NX"], cfg["NZ"], cfg["NR"], cfg["NC"], cfg["series"], cfg["ztype"], "".join(case["ym"]),
-        ("; x mask " + "".join(case["xm"])) if case["xm"] else "")
+        (("; x mask " + "".join(case["xm"])) if case["xm"] else "")
+        + (("; err/c mask " + "".join(case["am"])) if case.get("am") else "")
+        + "".join("; %s=%s" % (k, cfg["h"][k]) for k in ("zdtype", "cdtype", "mix", "split") if cfg["h"].get(k)))
 
 
 # ---------------------------------------------------------------------------
@@ -710,7 +758,7 @@ def compare(case, b, fig, P):
         v = float(frac(col))
         if not (0.0 <= v <= 1.0):
             return
-        if not plotread.colour_matches(real_rgba, plotread.cmap_colour(cmap, v)):
+        if not plotread.colour_matches(real_rgba, plotread.cmap_colour(cmap, v, eps=1e-6)):
             msg = "%s has colour %s, the colour map at normalised value %s/%s is %s" % (
                 who, tuple(round(x, 4) for x in real_rgba[:3]), col[0], col[1],
                 tuple(round(float(x), 4) for x in cmap(v)[:3]))
@@ -859,6 +907,8 @@ def compare(case, b, fig, P):
                     kof = {wxy: k for wxy, k in zip(want_xy, d["pts"])}
                     for (x, y), sg in zip(got_xy, segs):
                         k = kof[(x, y)]
+                        if case.get("am") and case["am"][idx(cfg, r, c, s, k) - 1] != "f":
+                            continue              # no finite error value there: only the point is demanded
                         e = errval(idx(cfg, r, c, s, k)) * scale
                         wseg = [(x, y - e), (x, y + e)] if nm == "yerr" else [(x - e, y), (x + e, y)]
                         if not all(close(float(sg[q][t]), wseg[q][t], rel=1e-12) for q in range(2) for t in range(2)):
@@ -876,7 +926,7 @@ def compare(case, b, fig, P):
                             if col[1] == 0:
                                 continue
                             v = float(frac(col))
-                            if not plotread.colour_matches(tuple(rgba_), plotread.cmap_colour(cmap, v)):
+                            if not plotread.colour_matches(tuple(rgba_), plotread.cmap_colour(cmap, v, eps=1e-6)):
                                 P.add("colour", "%s point %d (colour variable = %s) has colour %s; normalised over the "
                                       "whole variable [%s, %s] it is %s/%s -> %s (collection normalises over [%s, %s])"
                                       % (who, kk, cq(cfg, cfg["CTab"][idx(cfg, r, c, s, kk) - 1]),
@@ -962,13 +1012,13 @@ def _chk(case):
 
 def nontrivial(case):
     cfg = case["cfg"]
-    return any(m != "f" for m in case["ym"] + case["xm"]) or cfg["colour"] != "none" or cfg["NR"] + cfg["NC"] > 0
+    return any(m != "f" for m in case["ym"] + case["xm"] + (case.get("am") or [])) or cfg["colour"] != "none" or cfg["NR"] + cfg["NC"] > 0
 
 
 def case_key(case):
     cfg = case["cfg"]
     return [[cfg[k] for k in TLA_FIELDS if k not in ("id",)], cfg["series"], cfg["ztype"], sorted(cfg["h"].items()),
-            case["ym"], case["xm"]]
+            case["ym"], case["xm"], case.get("am") or []]
 
 
 def report_case(rep, case, items, what_prefix=None):
@@ -1001,6 +1051,9 @@ def run(rep):
         "relative to y and to the Dataset, and positions spread over two equally long dimensions, are varied by the "
         "harness under unchanged abstract cases; where positions span two dimensions the order of a line's points is "
         "not compared",
+        "an auxiliary variable (y_err / x_err, scatter's per-point c) gets NaN / +inf of its own; the point must still be "
+        "handed to matplotlib (Axes.scatter itself masks, but keeps, a point whose colour value is NaN), its error bar / colour is then not compared; dtypes of the z coordinate and the colour variable "
+        "(uint8..uint64, int32, float32, int64, float64) are varied by the harness under unchanged abstract cases",
         "auto_lineplot/auto_scatter are not exercised with square y arrays (the documented transposition is ambiguous there)",
     ]
     cfgs = gen_configs(rep.tier)
@@ -1035,16 +1088,16 @@ def run(rep):
     seen = set()
     for c in raw_cases:
         cfg = byid[c["id"]]
-        case = dict(cfg=cfg, ym=c["ym"], xm=c["xm"], drawn=c["drawn"], panels=c["panels"],
+        case = dict(cfg=cfg, ym=c["ym"], xm=c["xm"], am=c["am"], drawn=c["drawn"], panels=c["panels"],
                     legend=c["legend"], cbar=c["cbar"], lim=c["lim"])
-        k = common.stable_hash([c["id"], c["ym"], c["xm"]])
+        k = common.stable_hash([c["id"], c["ym"], c["xm"], c["am"]])
         if k in seen:
             continue
         seen.add(k)
         cases.append(case)
     if len(cases) < 500:
         raise tlc.TLCError("too few emitted cases: %d" % len(cases))
-    cases.sort(key=lambda c: (c["cfg"]["id"], c["ym"], c["xm"]))
+    cases.sort(key=lambda c: (c["cfg"]["id"], c["ym"], c["xm"], c["am"]))
     common.use_repo()
     plotread.quiet_matplotlib()
     res = common.pmap(_chk, cases, chunksize=8)
